@@ -2,9 +2,9 @@ package rules
 
 import (
 	"fmt"
-	"os"
 	"go/token"
 	"go/types"
+	"os"
 	"sort"
 	"strings"
 
@@ -449,6 +449,106 @@ func c20RunnerUpNil(w *core.World, r *core.Report, scope map[*ssa.Function]bool)
 					}
 				}
 				r.Check(nonNilAt(in, p), "RUNNER-UP-NIL", core.Site(f, "runner-up %s", p.Comment), w.InstrPos(in), "the second-best candidate is nil when there is only one candidate; "+bad+" without a nil test")
+			}
+		}
+	}
+	return n
+}
+
+// c20ProducerConcurrent (K11): a function that makes a channel and then drains it in a loop must start whatever
+// fills the channel as a goroutine: a producer that is CALLED (a closure capturing the channel, or a function handed
+// the channel) before the drain loop runs on the consumer's own goroutine and blocks for good once the buffer is full.
+func c20ProducerConcurrent(w *core.World, r *core.Report, scope map[*ssa.Function]bool) int {
+	n := 0
+	fns := make([]*ssa.Function, 0, len(scope))
+	for f := range scope {
+		fns = append(fns, f)
+	}
+	sort.Slice(fns, func(i, j int) bool { return core.FuncKey(fns[i]) < core.FuncKey(fns[j]) })
+	for _, f := range fns {
+		for _, b := range f.Blocks {
+			for _, in := range b.Instrs {
+				mk, ok := in.(*ssa.MakeChan)
+				if !ok {
+					continue
+				}
+				isCh := func(v ssa.Value) bool {
+					if v == ssa.Value(mk) {
+						return true
+					}
+					for _, o := range core.Origins(v) {
+						if o == ssa.Value(mk) {
+							return true
+						}
+					}
+					// the variable holding the channel, captured by reference
+					if al, isAl := v.(*ssa.Alloc); isAl {
+						for _, ref := range *al.Referrers() {
+							if st, isSt := ref.(*ssa.Store); isSt && st.Addr == ssa.Value(al) && st.Val == ssa.Value(mk) {
+								return true
+							}
+						}
+					}
+					return false
+				}
+				// the drain: a receive from the channel on a cycle of f
+				var drain ssa.Instruction
+				for _, b2 := range f.Blocks {
+					for _, in2 := range b2.Instrs {
+						switch x := in2.(type) {
+						case *ssa.UnOp:
+							if x.Op == token.ARROW && isCh(x.X) && core.OnCycle(x) {
+								drain = x
+							}
+						case *ssa.Next:
+							if rg, isRg := x.Iter.(*ssa.Range); isRg && isCh(rg.X) {
+								drain = x
+							}
+						}
+					}
+				}
+				if drain == nil {
+					continue
+				}
+				// producers started from f
+				for _, b2 := range f.Blocks {
+					for _, in2 := range b2.Instrs {
+						c, isCallInstr := in2.(ssa.CallInstruction)
+						if !isCallInstr {
+							continue
+						}
+						if _, isDefer := c.(*ssa.Defer); isDefer {
+							continue
+						}
+						cc := c.Common()
+						produces := false
+						for _, o := range append(core.Origins(cc.Value), cc.Value) {
+							if mc, isMC := o.(*ssa.MakeClosure); isMC {
+								for _, bd := range mc.Bindings {
+									if isCh(bd) {
+										produces = true
+									}
+								}
+							}
+						}
+						if !cc.IsInvoke() && cc.StaticCallee() != nil {
+							for _, a := range cc.Args {
+								if isCh(a) && cc.StaticCallee().Blocks != nil {
+									produces = true
+								}
+							}
+						}
+						if bi, isB := cc.Value.(*ssa.Builtin); isB && (bi.Name() == "close" || bi.Name() == "len" || bi.Name() == "cap") {
+							produces = false
+						}
+						if !produces || !core.CanFollow(c, drain) {
+							continue
+						}
+						n++
+						_, isGo := c.(*ssa.Go)
+						r.Check(isGo, "PRODUCER-CONCURRENT", core.Site(f, "producer of the drained channel started with go"), w.InstrPos(c), "the code that fills the channel runs on the goroutine that is going to drain it: with more results than the buffer holds it blocks before the drain loop is reached")
+					}
+				}
 			}
 		}
 	}
